@@ -131,6 +131,64 @@ def _remap_block(blk, loff, boff, poff, ret_goto, ret_dest, callee_ret_local):
     return nb
 
 
+def _subst_ref_params(j, bi, t, cj, loff, boff):
+    from .thread import _walk_places
+    nargs = cj['arg_count']
+    # parameters assigned inside the helper are left alone
+    assigned = set()
+    for blk in cj['blocks']:
+        for st in blk['stmts']:
+            if st['k'] == 'assign' and not st['p']['pr']:
+                assigned.add(st['p']['l'])
+        tt = blk['term']
+        if tt['k'] == 'call' and not tt['dest']['pr']:
+            assigned.add(tt['dest']['l'])
+    caller_blk = j['blocks'][bi]
+    for i, a in enumerate(t['args']):
+        if i + 1 > nargs or (i + 1) in assigned:
+            continue
+        if a.get('k') not in ('move', 'copy') or a['p']['pr']:
+            continue
+        tl = a['p']['l']
+        # the argument temporary: defined once, in the calling block, as a reference to a caller local (possibly through a reborrow)
+        target = None
+        cur = tl
+        for _ in range(3):
+            ds = [st for st in caller_blk['stmts'] if st['k'] == 'assign' and st['p'] == {'l': cur, 'pr': []}]
+            alld = sum(1 for blk in j['blocks'][:boff] for st in blk['stmts'] if st['k'] == 'assign' and st['p']['l'] == cur and not st['p']['pr']) + \
+                sum(1 for blk in j['blocks'][:boff] if blk['term']['k'] == 'call' and blk['term']['dest'] == {'l': cur, 'pr': []})
+            if len(ds) != 1 or alld != 1 or ds[0]['r'].get('k') != 'ref':
+                break
+            rp = ds[0]['r']['p']
+            if rp['pr'] == ['*']:
+                cur = rp['l']          # reborrow `&mut *r`
+                continue
+            if not rp['pr'] and rp['l'] > j['arg_count'] and j['locals'][rp['l']].get('names'):
+                target = rp['l']
+            break
+        if target is None:
+            continue
+        # the caller must not use the reference temporary for anything else
+        param = loff + 1 + i
+
+        def f(p, param=param, target=target):
+            if p.get('l') == param and p.get('pr') and p['pr'][0] == '*':
+                p['l'] = target
+                p['pr'] = p['pr'][1:]
+        ok = True
+
+        def probe(p, param=param):
+            nonlocal ok
+            if p.get('l') == param and not (p.get('pr') and p['pr'][0] == '*'):
+                ok = False     # the reference itself is used (passed on, compared, ..): keep the indirection
+        for blk in j['blocks'][boff:]:
+            _walk_places(blk, probe)
+        if not ok:
+            continue
+        for blk in j['blocks'][boff:]:
+            _walk_places(blk, f)
+
+
 def inline_json(facts, j, should_inline, depth, stack):
     """Return a deep-copied body JSON with eligible callees spliced in."""
     j = copy.deepcopy(j)
@@ -171,6 +229,9 @@ def inline_json(facts, j, should_inline, depth, stack):
         j['promoted'] = list(j['promoted']) + list(cj.get('promoted', []))
         for blk in cj['blocks']:
             j['blocks'].append(_remap_block(blk, loff, boff, poff, t['target'], t['dest'], loff))
+        # a parameter that is bound to `&mut <local>` / `&<local>` of the caller and never reassigned in the helper: the helper's
+        # accesses `(*p).x` are accesses to that local (so a store through the parameter is a store to the caller's variable)
+        _subst_ref_params(j, bi, t, cj, loff, boff)
         # the call site: bind the arguments to the callee's parameter locals and jump in
         for i, a in enumerate(t['args']):
             j['blocks'][bi]['stmts'].append({'k': 'assign', 'p': {'l': loff + 1 + i, 'pr': []}, 'r': {'k': 'use', 'a': a}, 'loc': t['loc']})
